@@ -360,3 +360,20 @@ func Main(run func() int) {
 	}
 	os.Exit(code)
 }
+
+// LoadInput reads the "input" string of a replay file written by Violation.
+func LoadInput(path string) (string, error) {
+	b, err := os.ReadFile(path)
+	if err != nil {
+		return "", err
+	}
+	var v struct {
+		Replay struct {
+			Input string `json:"input"`
+		} `json:"replay"`
+	}
+	if err := json.Unmarshal(b, &v); err != nil {
+		return "", err
+	}
+	return v.Replay.Input, nil
+}
